@@ -223,3 +223,36 @@ Proof.
   fold l in H. fold dec in H. pose proof (surgery_slotwise dec l 0 [] C) as Sw. cbn [app] in Sw. rewrite Sw in H.
   destruct (slots dec 0 l) as [x|]; cbn [bind] in H; [|discriminate]. inversion H. reflexivity.
 Qed.
+
+(* ------------------------------------------------------------------ where correct_xls_route_list is wrong: witnesses
+   (both reproduced on gnpy, designed or not; corpus/C20/r04, r05) *)
+Definition svc_row (src dst path loose : string) : req_row :=
+  mkReqRow (CNum 1) (Some src) (Some dst) (CStr "Voyager") CEmpty (Some 50%Q) None None CEmpty (Some path) (Some loose)
+           (Some 100%Q).
+Definition eq_voyager : list (string * list string) := [("Voyager", ["mode 1"])]%string.
+Definition nodes_after (w : rows) (r : req_row) : res (list (list string)) :=
+  let* n := convert w in
+  let* l := read_service_sheet w n eq_voyager false [r] in Ok (map r_nodes l).
+
+(* `clean` is needed: a hop written as a uid that an EARLIER hop has just been corrected into is removed / replaced at
+   that earlier slot.  A - F(fused) - I(ila) - B, loose route  F | I | B | west fused spans in F : the last hop is no
+   valid constraint and is dropped, but it is the FIRST hop's slot that disappears, so the fused element ends up
+   after ROADM B *)
+Definition w_order : rows :=
+  mkRows [nd "A" "ROADM"; nd "F" "FUSED"; nd "I" "ILA"; nd "B" "ROADM"] [lk "A" "F"; lk "F" "I"; lk "I" "B"; lk "A" "B"] [] [].
+Lemma surgery_order_refuted :
+  nodes_after w_order (svc_row "A" "B" "F | I | B | west fused spans in F" "yes")
+    = Ok [["west edfa in I"; "roadm B"; "west fused spans in F"]]%string /\
+  nodes_after w_order (svc_row "A" "B" "F | I | B" "yes")
+    = Ok [["west fused spans in F"; "west edfa in I"; "roadm B"]]%string.
+Proof. split; vm_compute; reflexivity. Qed.
+
+(* names are matched by substring (`ila_elem in n.uid`): with sites A10 and A1, 'east edfa in A1' is first found in
+   'east edfa in A10'; the hop A1 of the STRICT route  A1 | C  (B -> A1 -> C exists) is silently skipped *)
+Definition w_prefix : rows :=
+  mkRows [nd "A" "ROADM"; nd "A10" "ILA"; nd "B" "ROADM"; nd "A1" "ILA"; nd "C" "ROADM"]
+         [lk "A" "A10"; lk "A10" "B"; lk "B" "A1"; lk "A1" "C"; lk "C" "A"] [] [].
+Lemma prefix_name_refuted :
+  nodes_after w_prefix (svc_row "B" "C" "A1 | C" "no") = Ok [["roadm C"]]%string /\
+  nodes_after w_prefix (svc_row "A" "B" "A10 | B" "no") = Ok [["west edfa in A10"; "roadm B"]]%string.
+Proof. split; vm_compute; reflexivity. Qed.
